@@ -87,6 +87,11 @@ def replay(cases: list[dict], rows: list[dict], seed: int) -> dict:
             sig = (f"batch case {k}: n={n} kept={c['m']} factor={c['fn']}/{c['fd']} direction={v} scale={scale} offset={off} "
                    f"maximize={maximize}")
             try:
+                if rep == 1:
+                    # the same Individual objects have been clustered before as part of another population (an archive
+                    # that grows, the sprout mechanism and then an analysis of the whole history): nothing may stick to them
+                    NearestBetterClustering(inds[: max(2, n // 2)], c["fn"] / c["fd"], 1.0).cluster()
+                    NearestBetterClustering(inds[n // 3:], 1.0, 1.0).cluster()
                 seeds = NearestBetterClustering(inds, c["fn"] / c["fd"], c["tn"] / c["td"]).cluster()
                 got = {back[id(s)] for s in seeds}
             except Exception as ex:  # noqa: BLE001
